@@ -76,6 +76,9 @@ def _(eng, ci, a):
     c = z3.simplify(c)
     if z3.is_true(c):
         return UNIT
+    if eng.in_replay():
+        eng.add(c)
+        return UNIT
     if z3.is_false(c) or not eng.check_sat(c):
         raise PathEnd('assume-false')
     eng.add(c)
@@ -113,6 +116,10 @@ def _(eng, ci, a):
         record_violation(eng, cid, True)
         eng.events.append(('chk', cid, 0))
         raise PathEnd('check-failed', cid)
+    if eng.in_replay():
+        eng.add(okv)
+        eng.events.append(('chk', cid, 1))
+        return UNIT
     bad = z3.Not(okv)
     if eng.check_sat(bad, 'q_assert'):
         record_violation(eng, cid, bad)
@@ -137,6 +144,10 @@ def _(eng, ci, a):
         return UNIT
     okz = okv if is_sym(okv) else z3.BoolVal(bool(okv))
     clz = cls if is_sym(cls) else z3.BoolVal(bool(cls))
+    if eng.in_replay():
+        eng.add(okz)
+        eng.events.append(('chk', cid, 1))
+        return UNIT
     bad_out = z3.And(z3.Not(okz), z3.Not(clz))
     bad_in = z3.And(z3.Not(okz), clz)
     if eng.check_sat(bad_out, 'q_assert'):
@@ -187,6 +198,9 @@ def _require_ascii(self, b):
         return
     i = b.get_id()
     if i in self.ascii_ok:
+        return
+    if self.in_replay():
+        self.ascii_ok.add(i)
         return
     if self.check_sat(z3.UGE(b, z3.BitVecVal(0x80, b.size()))):
         raise Unsupported('symbolic byte/char not constrained to ASCII reached a text operation')
@@ -244,14 +258,39 @@ Engine.dump_trace = _dump_trace
 
 
 def explore_harness(eng, fn, name):
-    """runs in a freshly forked process that becomes the root of this harness' path tree"""
+    """runs in a process of its own: depth-first exploration of the harness' path tree.  Every path is
+    executed from the start of the harness; the decisions of its prefix are replayed without solver queries."""
     eng.cur_harness = name
-    eng.check_sites = {}
-    eng.ascii_ok = set()
-    eng.is_root = True
-    t0 = time.time()
-    status, detail = 'ok', ''
+    eng.is_root = False
+    eng.pending = [[]]
+    npaths = 0
+    nunknown = 0
     try:
+        while eng.pending:
+            prefix = eng.pending.pop()
+            eng.reset_path(prefix)
+            stop = run_one_path(eng, fn, name)
+            npaths += 1
+            if stop:
+                break
+            nunknown += eng.stats.get('unknown', 0)
+            if nunknown >= 2:
+                eng.emit({'type': 'error', 'detail': 'stopped after %d solver timeouts (%d paths done, %d pending)' % (nunknown, npaths, len(eng.pending))})
+                break
+            if npaths > eng.max_paths:
+                eng.emit({'type': 'error', 'detail': 'path budget exhausted (%d paths, %d pending)' % (npaths, len(eng.pending))})
+                break
+            if eng.deadline and time.time() > eng.deadline and eng.pending:
+                eng.emit({'type': 'error', 'detail': 'wall-clock budget exhausted (%d paths done, %d pending)' % (npaths, len(eng.pending))})
+                break
+    finally:
+        eng.finish_process()
+
+
+def run_one_path(eng, fn, name):
+    status, detail = 'ok', ''
+    stop = False
+    if True:
         try:
             eng.run_fn(fn, [])
         except PathEnd as e:
@@ -265,15 +304,16 @@ def explore_harness(eng, fn, name):
             except Exception as e2:
                 detail += ' [model extraction failed: %s]' % e2
         except Unsupported as u:
-            status, detail = 'unsupported', '%s  [stack: %s]' % (u, ' > '.join(s[-60:] for s in eng.callstack[-6:]))
+            status, detail = 'unsupported', '%s  [stack: %s]' % (u, ' > '.join(s[-60:] for s in (getattr(u, 'stack', None) or [])[-6:]))
         except Inconclusive as u:
             status, detail = 'inconclusive', str(u)
+            stop = 'budget' in str(u)
         except RecursionError:
             status, detail = 'inconclusive', 'python recursion limit'
         except Exception as e:
             status, detail = 'internal-error', traceback.format_exc()[-1500:]
         rec = {'type': 'path', 'harness': name, 'status': status, 'detail': detail, 'steps': eng.steps,
-               'ndec': len(eng.decisions), 'stats': eng.stats, 'checks': eng.check_sites,
+               'ndec': len(eng.taken), 'stats': eng.stats, 'checks': eng.check_sites,
                'fns': sorted(eng.fns_entered), 'models': sorted(eng.models_used),
                'assumptions': sorted(eng.assumptions)}
         if status in ('ok', 'check-failed') or status == 'panic':
@@ -287,8 +327,51 @@ def explore_harness(eng, fn, name):
                 rec['detail'] = 'final model: %s' % u
         rec['decisions'] = eng.decisions[-80:]
         eng.emit(rec)
-        if eng.path_counter is not None:
-            with eng.path_counter.get_lock():
-                eng.path_counter.value += 1
-    finally:
-        eng.finish_process()
+    return stop
+
+
+# ----------------------------------------------------------------------------- Model construction intercept
+
+@rt('model_from_workbook')
+def _(eng, ci, a):
+    """`Model::from_workbook(wb, "en")` for a workbook without formulas / defined names / tables (DESIGN 3.3):
+    the given workbook, empty caches, one empty parsed-formula list per sheet, opaque parser / locale /
+    language / timezone.  The preconditions are checked here on the (structurally concrete) workbook."""
+    from .typedefs import StructDef
+    wb = a[0]
+    wdef = eng.td.lookup('types::Workbook')
+    g = lambda name: wb.f[wdef.index[name]]
+    if len(g('defined_names').f) or len(g('tables').f):
+        raise Unsupported('model_from_workbook: workbook with defined names / tables')
+    sdef = eng.td.lookup('types::Worksheet')
+    for ws in g('worksheets').f:
+        if len(ws.f[sdef.index['shared_formulas']].f):
+            raise Unsupported('model_from_workbook: worksheet with formulas')
+    md = eng.td.lookup('model::Model')
+    if not isinstance(md, StructDef):
+        raise Unsupported('model::Model definition not found')
+    vals = {
+        'workbook': wb,
+        'parsed_formulas': VecV([VecV([]) for _ in g('worksheets').f]),
+        'parsed_defined_names': MapV(),
+        'shared_strings': MapV(),
+        'parser': Opaque('parser'),
+        'cells': MapV(),
+        'locale': Ref([Opaque('locale')], 0),
+        'language': Ref([Opaque('language')], 0),
+        'tz': Opaque('tz'),
+        'view_id': 0,
+        'variable_stack': MapV(),
+        'last_variable_id': 0,
+        'lambdas': MapV(),
+        'last_lambda_id': 0,
+        'spill_cells': VecV([]),
+        'support': MapV(),
+        'cf_cache': MapV(),
+        'links': MapV(),
+    }
+    missing = [f for f in md.fields if f not in vals]
+    if missing or len(md.fields) != len(vals):
+        raise Unsupported('model::Model has fields this intercept does not know: %s' % (missing or sorted(set(vals) - set(md.fields))))
+    eng.assumptions.add('intercept Model::from_workbook: formula-free workbook; parser/locale/language/tz opaque')
+    return Agg([vals[f] for f in md.fields], md.path)
